@@ -1,8 +1,8 @@
 #!/bin/bash
 # run from a snapshot of /verif: every thorough check once
-for p in C05 C01 C12 C04 C03 C02 C17 C16 C13 C08 C15 C14 C07 C06 C09 C10 C11; do
+for p in C02 C13 C08 C15 C14 C07 C06 C09 C10 C11 C04 C16 C17 C03 C01 C05 C12; do
   s=$(date +%s)
-  out=$(VERIF_SEED=${VERIF_SEED:-11} timeout 7200 ./check $p thorough 2>&1); code=$?
+  out=$(VERIF_SEED=${VERIF_SEED:-13} timeout 7200 ./check $p thorough 2>&1); code=$?
   e=$(date +%s)
   echo "== $p thorough exit=$code time=$((e-s))s :: $(echo "$out" | grep -a "^$p thorough" | tail -1)"
   if [ $code -ne 0 ]; then echo "$out" | grep -a -v "^VIOLATION" | head -30 | cut -c1-700; fi
